@@ -758,6 +758,9 @@ func (cr *caseRun) step(st Step) {
 	switch st.A {
 	case "c":
 		e := Ev{Ev: "c", K: st.K, S: int(st.S), N: st.N, P: st.P, ES: st.ES, Inc: st.Inc, Code: int(st.Code), IWS: st.IWS, MFS: st.MFS, Req: st.Req, CL: st.CL}
+		if e.IWS > 2147483647 {
+			e.IWS = -2 // not representable in TLC; ConnP reads -2 as "above 2^31-1"
+		}
 		if st.K == "PING" || st.K == "PINGACK" {
 			e.Inc = int64(cr.pingSeq + 1)
 		}
